@@ -1,4 +1,6 @@
 """C11 part C: complete enumeration of the header grid (version x id x format tag x mode)."""
+import json
+import os
 import random
 
 from . import engine as E
@@ -39,6 +41,92 @@ def header_grid(profile, tier, seed):
             if r["violation"]:
                 r["knobs"] = knobs
                 violations.append({"res": r, "knobs": knobs, "ops": ops, "count": 1})
-    return {"evaluations": n, "violations": violations[:8],
+    direct = []
+    ng, probs = real_gate(profile, seed)
+    if probs:
+        os.makedirs(E.REPLAYS, exist_ok=True)
+        path = os.path.join(E.REPLAYS, "C11-realgate-%d.json" % seed)
+        json.dump({"property": "C11", "profile": profile.name, "realgate": True, "seed": seed,
+                   "expected_signature": "real_gate|" + probs[0][0], "message": probs[0][2], "problems": probs},
+                  open(path, "w"), indent=1, default=E._json_default)
+        direct.append((path, "real file: %s (version %r): %s" % probs[0]))
+    return {"evaluations": n + ng, "violations": violations[:8], "direct_violations": direct,
             "coverage": {"grid_cells": n, "modes_per_cell": 3, "distinct_nontrivial": len(distinct),
+                         "real_file_gate_checks": ng,
                          "exhaustive_over_grid": True, "grid_outcomes": dict(stats), "sample": sample}}
+
+
+def real_gate(profile, seed):
+    """Real-file cross-check of the mode gating (validates the simulated disk for C11, and covers
+    what depends on the identity of a real file across several opens in one process): for a few
+    header variants a ReadWrite open must be refused, a following ReadOnly open of the same path
+    must refuse every mutator, and the bytes on disk must be identical afterwards."""
+    import hashlib
+    import os
+    import shutil
+    import tempfile
+    import h5py
+    import numpy as np
+    import nixio
+    from . import realdisk
+    tmp = tempfile.mkdtemp(prefix="nixsim-gate-")
+    problems = []
+    n = 0
+    realdisk._disk_seams(False)
+    try:
+        base = os.path.join(tmp, "base.nix")
+        f = nixio.File.open(base, nixio.FileMode.Overwrite)
+        b = f.create_block("b", "t")
+        b.create_data_array("a", "t", data=[1.0, 2.0, 3.0])
+        s = f.create_section("s", "t")
+        s.create_section("linked-only", "t").link = s
+        s.create_property("p", [1, 2])
+        f.close()
+        for ver in ([1, 2, 0], [1, 1, 1], [1, 2, 2], [1, 2, 1]):
+            path = os.path.join(tmp, "v%d%d%d.nix" % tuple(ver))
+            shutil.copy(base, path)
+            with h5py.File(path, "r+") as hf:
+                hf.attrs["version"] = np.array(ver, dtype=np.int32)
+            sha = hashlib.sha256(open(path, "rb").read()).hexdigest()
+            writable = tuple(ver) == (1, 2, 1)
+            try:
+                fw = nixio.File.open(path, nixio.FileMode.ReadWrite)
+                if not writable:
+                    problems.append(("rw_open_accepted", ver, "ReadWrite open of version %r succeeded" % (ver,)))
+                fw.close()
+            except Exception:  # noqa
+                if writable:
+                    problems.append(("rw_open_refused", ver, "ReadWrite open of the library's own version refused"))
+            try:
+                fr = nixio.File.open(path, nixio.FileMode.ReadOnly)
+            except Exception as e:  # noqa
+                problems.append(("ro_open_refused", ver, repr(e)[:120]))
+                continue
+            muts = [("create_block", lambda: fr.create_block("x", "t")),
+                    ("set_definition", lambda: setattr(fr.blocks[0], "definition", "changed")),
+                    ("delete_block", lambda: fr.blocks.__delitem__(0)),
+                    ("append", lambda: fr.blocks[0].data_arrays[0].append([4.0])),
+                    ("create_property", lambda: fr.sections[0].create_property("q", [1]))]
+            reads = [("inherited_properties", lambda: [p.name for sec in fr.find_sections() for p in sec.inherited_properties()]),
+                     ("data", lambda: fr.blocks[0].data_arrays[0][:].tolist())]
+            for name, fn in reads:
+                try:
+                    fn()
+                except Exception as e:  # noqa
+                    problems.append(("ro_read_raised:" + name, ver, repr(e)[:120]))
+            for name, fn in muts:
+                try:
+                    fn()
+                    problems.append(("ro_mutator_accepted:" + name, ver,
+                                     "%s returned normally in a read-only session that followed a %s ReadWrite open"
+                                     % (name, "successful" if writable else "refused")))
+                except Exception:  # noqa
+                    pass
+            fr.close()
+            if hashlib.sha256(open(path, "rb").read()).hexdigest() != sha:
+                problems.append(("bytes_changed", ver, "file bytes differ after refused / read-only opens"))
+            n += 1
+    finally:
+        realdisk._disk_seams(True)
+        shutil.rmtree(tmp, ignore_errors=True)
+    return n, problems
